@@ -80,7 +80,7 @@ CHECKS = {
         "technique": "stateful property-based testing (rapid) through the in-process gateway with a model-based ordered-page oracle (tie classes)",
         "level_text": "Random single-swamp histories through the in-process gateway (Set/Increment/Patch/Delete/reload) with indexes built lazily mid-history. Every "
                       "GetByIndex/GetByIndexStream page (all 15 index types, both orders, offsets, limits, time windows) is compared, as a sequence of tie classes, against a "
-                      "sorted/windowed/paged reference model. Three recorded incremental-maintenance defects are excluded from the main generator and kept as witness facets.",
+                      "sorted/windowed/paged reference model.",
         "level_note": "Value type homogeneous per swamp (documented precondition); time windows only with time indexes; no typed zero values (C05 finding); one client, no concurrency.",
         "assumptions": ["Limit 0 means all; window is [from, to)", "the server never stamps timestamps on Set"],
     },
